@@ -596,6 +596,21 @@ static void run_case(const Case& c) {
                 V ce = sc.C[k], t = which ? sc.Tt[k] : sc.Tt[k] * -1.0;
                 double hw = sc.hw[k], reach = sqrt(hw * hw + ext * ext) + 0.1 * hw, far = -INFINITY;
                 for (auto& q : pts) if (len(q - ce) <= reach) far = std::max(far, dot(q - ce, t));
+                // another part of the same element passing near this end (looping 2-section paths) puts foreign
+                // vertices into the neighbourhood: the plane cannot be read off there
+                bool foreign = false;
+                for (size_t si = 0; si < o.S.size() && !foreign; si++)
+                    for (int kk = 0; kk <= o.N; kk += 10) {
+                        bool end_section = which ? si + 1 == o.S.size() : si == 0;
+                        if (!end_section && len(o.S[si].C[kk] - ce) <= reach + o.S[si].hw[kk] + 0.1 * hw) { foreign = true; break; }
+                    }
+                {   // ... or the cap at the other end of the path
+                    const auto& so = which ? o.S.front() : o.S.back();
+                    int ko = which ? 0 : o.N;
+                    double exo = std::max(0.0, (which ? b.extu[e] : b.extv[e]) * b.T.mag), ro = sqrt(so.hw[ko] * so.hw[ko] + exo * exo) + 0.1 * so.hw[ko];
+                    if (len(so.C[ko] - ce) <= reach + ro) foreign = true;
+                }
+                if (foreign) { R->count("ext_outline_plane_not_measured_other_part_nearby"); continue; }
                 if (!(fabs(far - ext) <= 1e-3 * b.T.mag))
                     report(c, {"outline", "extension", fmt("%s end: the outline reaches %.9g beyond the end of the centre curve, the element's extension is %.9g", which ? "final" : "initial", far, ext), e, sc.C.empty() ? -1 : b.secs[which ? b.secs.size() - 1 : 0].kind, {}});
                 R->count("ext_outline_planes_measured");
@@ -761,6 +776,11 @@ int main(int argc, char** argv) {
         if (run.rarg("all_wo") == "1" || run.rarg("all_wo") == "2") { for (auto& p : (run.rarg("all_wo") == "1" ? all_wo() : diag_wo())) { c.wk = p.first; c.ok = p.second; run_case(c); } }
         else if (run.rarg("all_ext") == "1") { for (int j = 0; j < 32; j++) { c.ok = j / 16; c.eu = (j % 16) / 4; c.ev = j % 4; run_case(c); } }
         else { fprintf(stderr, "replaying %s\n  %s\n", replay_of(c).c_str(), case_json(c).c_str()); run_case(c); }
+        return run.finish();
+    }
+    if (getenv("C08_ONLY_EXT")) {  // development aid: the PATH-extension stages alone
+        stage_ext("pathext1", 1);
+        if (run.thorough()) stage_ext("pathext2", 2);
         return run.finish();
     }
     const std::string full = "elements{1,2} x end{flush,halfwidth,extended,round} x tolerance{1e-2,1e-3} x transform{identity,rotate,mirror,scale2,transform()}";
